@@ -556,10 +556,18 @@ func (fc *FnCtx) execInstr(in ssa.Instruction, st *State) {
 			args = append(args, fc.val(a, st))
 		}
 		if in.Block() != fc.fn.Blocks[0] && fc.inAnyLoop(in.Block()) {
-			fc.unsup("defer inside a loop")
+			// a defer inside a loop runs an unknown number of times at function exit: over-approximated
+			// by "anything may have been written" when the deferred calls run
+			fc.loopDefer = true
+			fc.note("defer inside a loop in " + fc.fnName() + ": the deferred calls are abstracted by a full havoc at function exit")
+			return
 		}
 		fc.defers = append(fc.defers, &deferRec{cond: st.reach, call: &in.Call, args: args, instr: in})
 	case *ssa.RunDefers:
+		if fc.loopDefer {
+			fc.havocAll(st)
+			fc.growAlloc(st)
+		}
 		for i := len(fc.defers) - 1; i >= 0; i-- {
 			d := fc.defers[i]
 			fc.runDefer(d, st)
